@@ -95,6 +95,16 @@ Example C18_checker_rejects :
   runner_trace_ok 2 [VStart; VNext; VFnStart 0; VFnEnd; VNext; VFnStart 1; VFnEnd; VFirst; VFnStart 0; VFnEnd] = true.
 Proof. vm_compute. repeat split. Qed.
 
+(* The timed checker (runner_timed_ok) accepts a run in which a Restart on the first schedule
+   re-arms the second schedule's start delay, and rejects the run in which the second schedule
+   begins as if the Restart had not happened, as well as a function start less than a period
+   after its schedule began. Times in ms: schedules (delay 0, every 20) and (delay 600, every 35). *)
+Example C18_timed_checker :
+  runner_timed_ok [0; 600] [20; 35] [(8,0,1); (1,0,21); (7,0,400); (1,0,420); (8,0,1000); (1,1,1035)] = true /\
+  runner_timed_ok [0; 600] [20; 35] [(8,0,1); (1,0,21); (7,0,400); (1,0,420); (8,0,601); (1,1,636)] = false /\
+  runner_timed_ok [0; 600] [20; 35] [(8,0,1); (1,0,15)] = false.
+Proof. vm_compute. repeat split. Qed.
+
 (* Non-vacuity: an execution that starts, runs the function twice, is stopped
    while a tick is pending, and ends with Stop returned and the goroutine gone. *)
 Example C18_example :
